@@ -1,5 +1,5 @@
 (* Properties_C02.v — C02: the reader reports what the ELF specification says is in the file. *)
-From ElfioV Require Import Bytes Mem Stream SectionData Strings Strings_proofs Elfio Table Loader Load_proofs Data_proofs Codec_proofs Reader_proofs.
+From ElfioV Require Import Bytes Mem Stream SectionData Strings Strings_proofs Elfio Table Loader Load_proofs Data_proofs Codec_proofs Reader_proofs Reload_oneseg.
 Local Open Scope N_scope.
 
 (* ELF header: a file that begins with the gABI encoding of a header (either
@@ -45,7 +45,8 @@ Theorem C02_section_header_table_reported :
       load_sections_loop junk fuel st [] c enc shoff es i (i + lenN secs) true racc allocs = Ok (st', rev loaded ++ racc, allocs) /\
       is_fail st' = false /\ st_inv st' /\ is_content st' = is_content st /\
       Forall2 same_hdr secs loaded /\
-      Forall (fun r => s_data r = None /\ s_stream_size r = lenN (is_content st) /\ s_cls r = c) loaded.
+      Forall (fun r => s_data r = None /\ s_stream_size r = lenN (is_content st) /\ s_cls r = c) loaded /\
+      (forall k r, nth_optN loaded k = Some r -> s_index r = wrap16 (i + k)).
 Proof. exact load_sections_loop_reports. Qed.
 Print Assumptions C02_section_header_table_reported.
 
@@ -58,6 +59,35 @@ Theorem C02_program_header_codec :
     p_paddr r = p_paddr g /\ p_filesz r = p_filesz g /\ p_memsz r = p_memsz g /\ p_align r = p_align g.
 Proof. exact phdr_roundtrip. Qed.
 Print Assumptions C02_program_header_codec.
+
+(* a program header table entry, through segment::load: the entry at [pos] of the stream holding the gABI encoding of a
+   segment's fields (either class, either byte order, every field over its full width) is reported with exactly
+   those fields *)
+Theorem C02_program_header_entry_reported :
+  forall st enc c (pos : N) g',
+    is_fail st = false -> st_inv st -> pos < 2 ^ 63 -> pos + phdr_size c <= lenN (is_content st) ->
+    g_cls g' = c -> phdr_wf g' ->
+    sliceN (is_content st) pos (phdr_size c) = phdr_bytes enc g' ->
+    exists st' r,
+      segment_load st [] enc (new_segment c) (Z.of_N pos) true = Ok (st', r, true, []) /\
+      is_fail st' = false /\ st_inv st' /\ is_content st' = is_content st /\
+      same_phdr g' r /\ g_sections r = [] /\ g_cls r = c /\ g_data r = None.
+Proof. exact (segment_load_reports_lazy (fun _ => 0)). Qed.
+Print Assumptions C02_program_header_entry_reported.
+
+(* ... and through the loop of load_segments (one entry): reported with those fields and with exactly the members
+   the membership rule (C02_membership_rule) selects among the sections loaded before *)
+Theorem C02_program_header_table_of_one_entry_reported :
+  forall st enc c (phoff es : N) secs g' f,
+    is_fail st = false -> st_inv st -> phoff < 2 ^ 62 -> phoff + phdr_size c <= lenN (is_content st) ->
+    g_cls g' = c -> phdr_wf g' ->
+    sliceN (is_content st) phoff (phdr_size c) = phdr_bytes enc g' ->
+    exists st' r,
+      load_segments_loop (S f) st [] secs enc c phoff es 0 1 true [] [] = Ok (st', [r], true, []) /\
+      is_fail st' = false /\ is_content st' = is_content st /\
+      same_phdr g' r /\ g_sections r = map wrap16 (seg_members g' secs) /\ g_cls r = c /\ g_index r = 0.
+Proof. exact (load_segments_loop_single (fun _ => 0)). Qed.
+Print Assumptions C02_program_header_table_of_one_entry_reported.
 
 (* names *)
 Theorem C02_name_is_cstring_at_offset :
